@@ -435,6 +435,23 @@ func (v *vRun) storeLogsLocked(n *vNode, batch, orig, twinBatch []*raft.Log, ref
 			v.c.witness("C18", "passthrough-storelogs-result", fmt.Sprintf("StoreLogs through the middleware: %v, directly: %v", err, terr), v.line)
 		}
 	}
+	if err != nil {
+		// a failed StoreLogs: the caller keeps its entries and may pass the same objects again.
+		// Nothing but the Extensions of a checkpoint that arrived WITHOUT metadata (a leader's
+		// own checkpoint) may have been touched: in particular the (start, sum) a leader put
+		// into a checkpoint must survive on a follower (a retry would otherwise take the
+		// leader branch and verify the range against this node's own sum)
+		for i, l := range batch {
+			o := orig[i]
+			if l.Index != o.Index || l.Term != o.Term || l.Type != o.Type || !bytes.Equal(l.Data, o.Data) ||
+				(len(o.Extensions) > 0 && !bytes.Equal(l.Extensions, o.Extensions)) {
+				what := fmt.Sprintf("a FAILED StoreLogs altered the caller's entry %d (Extensions %d -> %d bytes)", o.Index, len(o.Extensions), len(l.Extensions))
+				v.c.witness("C18", "failed-store-modifies-entry", what, v.line)
+				v.c.witness("C17", "failed-store-modifies-entry", what, v.line)
+				break
+			}
+		}
+	}
 	if err == nil && len(batch) > 0 {
 		for i, l := range batch {
 			// what reached the store (l was possibly given metadata by the middleware)
